@@ -30,6 +30,10 @@ CHECKS["C12"] = ("fault_enumeration", "4 C12",
     "runtime monitoring with fault enumeration: audit-hook fs trace + sys.monitoring line failpoints + body exceptions + corrupt archives; directory snapshots, byte comparison, stdlib archive readers",
     "For every golden scenario (format x content x name x tmpdir x pre-existing target) every recorded file-system event and every executed line of compress/compress_as/decompress is used once as a fault site; after each run the harness-owned temp locations must be empty and the target untouched where the statement says so. Right level: the fault space of one scenario is finite and is enumerated; scenarios are sampled.")
 
+CHECKS["C15"] = ("fault_enumeration", "4 C15",
+    "runtime monitoring with crash enumeration: audit-hook faults, sys.monitoring line failpoints, write()-proxy faults and real SIGKILLs injected by strace at every syscall touching the cache/backup file; fresh-interpreter reload; corruption sweep",
+    "Every file-system event, executed line and k-th write() of save_cache is used as an in-process fault site, and every openat/write/close/rename syscall on the cache/backup path as a real kill point (strace inject); after each the cache file must be the old or the complete new document and load in a fresh FileSet / interpreter. The strace log of an uninjected save is checked for close-before-rename ordering.")
+
 NOT_YET = {}
 
 
